@@ -467,7 +467,7 @@ func (s *scope) createInstance(descriptor *Descriptor) (any, error) {
 	invoker := s.rootProvider.analyzer.GetInvoker()
 
 	// Invoke constructor
-	results, err := invoker.Invoke(info, s)
+	results, err := invoker.InvokeFunc(info, descriptor.Constructor, s)
 	if err != nil {
 		// Check if it's a panic error and wrap appropriately
 		var panicErr *reflection.PanicError
